@@ -91,6 +91,7 @@ type mapAccess struct {
 }
 
 type mapState struct {
+	ref   any // the map itself: kept alive for the execution so that its address is never reused by another map
 	write *mapAccess
 	reads map[int]*mapAccess
 }
@@ -272,7 +273,7 @@ func MapAccess(m any, field, site string, write bool) {
 	}
 	st := s.maps[id]
 	if st == nil {
-		st = &mapState{reads: map[int]*mapAccess{}}
+		st = &mapState{ref: m, reads: map[int]*mapAccess{}}
 		s.maps[id] = st
 	}
 	before := func(a *mapAccess) bool { return a.seq == t.seq || (a.seq < len(t.vc) && a.clock <= t.vc[a.seq]) }
